@@ -1002,6 +1002,27 @@ class Models:
                 conds.append(land(inside, nz) if name == 'any' else lor(lnot(inside), nz))
             return simp_bool(lor(*conds) if name == 'any' else land(*conds))
         ip = self.ip
+        if name in ('reverse_complement', 'complement') and seq.pytype == 'Seq' and not args and not kwargs:
+            # Biopython's own byte-translation table (taken from the installed library, so the model is what the real call does):
+            # IUPAC complements, U/u -> A/a, every other byte unchanged
+            from Bio.Seq import Seq as _Seq
+            table = bytes(_Seq(bytes(range(256))).complement())
+            pc = seq.plain_cells()
+            if pc is None:
+                raise CannotEncode(f'{name} of a symbolic-extent view')
+            out = []
+            for c in pc:
+                if is_sym(c):
+                    e = c
+                    for b in range(256):
+                        if table[b] != b:
+                            e = z3.If(c == z3.BitVecVal(b, 8), z3.BitVecVal(table[b], 8), e)
+                    out.append(e)
+                else:
+                    out.append(table[c])
+            if name == 'reverse_complement':
+                out.reverse()
+            return SymSeq(out, seq.elem, 'Seq')
         if name in ('upper', 'lower'):
             pc = seq.plain_cells()
             if pc is None:
